@@ -253,6 +253,10 @@ func (e *Explorer) Branch(c Bool) bool {
 		}
 		return d
 	}
+	if len(e.taken) > 60000 {
+		e.incon("unwinding: more than 60000 decisions on one path (loop over symbolic data?)")
+		panic(pathEnd{"decision budget"})
+	}
 	t := e.check(c.S)
 	e.pop()
 	var d bool
